@@ -62,6 +62,7 @@ def handleSched (ws : List String) : String :=
                          else (fs.filter (·.key < k)) ++ [{ key := k, remaining := r, started := false }] ++ (fs.filter (·.key > k))
               go fs' os ("-" :: acc) fuel
             | _, _ => "bad-op"
+          | ["t", _] => go fs os ("-" :: acc) fuel     -- time does not enter the model (C03_source_sched_aging)
           | ["r", k] =>
             match k.toNat? with
             | some k => go (fs.filter (·.key != k)) os ("-" :: acc) fuel
